@@ -466,6 +466,182 @@ func c08families(c *Ctx, lt, rt *TNode, ops string) {
 	c08run(c, "family records of two documents", ln, rn, ops)
 }
 
+// ---------- reflexivity, decided from the input's syntax ----------
+
+// c08constrainedDate: the DATE value starts with an about / before / after / between keyword (the
+// values on which Date.Equals is deliberately not an equivalence: C07's known finding)
+func c08constrainedDate(v string) bool {
+	f := strings.Fields(strings.ToLower(v))
+	if len(f) == 0 {
+		return false
+	}
+	switch strings.TrimSuffix(f[0], ".") {
+	case "abt", "about", "c", "ca", "cca", "circa", "bef", "before", "aft", "after", "bet", "between", "from":
+		return true
+	}
+	return false
+}
+
+// c08dateKey: spelling-insensitive key of an unconstrained DATE value (case, runs of spaces, leading
+// zeros); two values of the pool with different keys are different dates or different texts
+func c08dateKey(v string) string {
+	f := strings.Fields(strings.ToLower(v))
+	for i, w := range f {
+		t := strings.TrimLeft(w, "0")
+		if t != "" && strings.Trim(t, "0123456789") == "" {
+			f[i] = t
+		}
+	}
+	return strings.Join(f, " ")
+}
+
+// c08syntaxPlain decides from the text of the tree alone that the known limitation (Equals not an
+// equivalence) cannot be involved: no DATE value carries a constraint or a range, and on every
+// level any two RESI nodes (any two EVEN nodes) that have DATE children have either the same set
+// of dates or sets without a common date. Then Equals is an equivalence on every level, and the
+// tree and any reordered copy of it must give an all-two-sided diff.
+func c08syntaxPlain(t *TNode) bool {
+	ok := true
+	level := []*TNode{t}
+	for len(level) > 0 && ok {
+		var next []*TNode
+		sets := map[string][]map[string]bool{}
+		for _, n := range level {
+			next = append(next, n.Kids...)
+			if n.Tag == "DATE" && c08constrainedDate(n.Value) {
+				ok = false
+			}
+			if n.Tag == "RESI" || n.Tag == "EVEN" {
+				set := map[string]bool{}
+				for _, k := range n.Kids {
+					if k.Tag == "DATE" {
+						set[c08dateKey(k.Value)] = true
+					}
+				}
+				if len(set) > 0 {
+					sets[n.Tag] = append(sets[n.Tag], set)
+				}
+			}
+		}
+		for _, ss := range sets {
+			for i := range ss {
+				for j := i + 1; j < len(ss); j++ {
+					common, same := 0, len(ss[i]) == len(ss[j])
+					for k := range ss[i] {
+						if ss[j][k] {
+							common++
+						} else {
+							same = false
+						}
+					}
+					if common > 0 && !same {
+						ok = false
+					}
+				}
+			}
+		}
+		level = next
+	}
+	return ok
+}
+
+var c08selfSeen = map[string]bool{}
+
+// c08reflexive is the oracle for "a node equals itself" and "a tree and its copy give an
+// all-two-sided diff", independent of the model and of what Equals says about the known finding:
+// every node must Equal itself; the tree compared with an identical copy and with a reordered copy
+// must be all-two-sided whenever c08syntaxPlain holds (otherwise a failure is the known finding).
+func c08reflexive(c *Ctx, stream string, root gedcom.Node, r *Rand) {
+	t := abstractNode(root)
+	enc := encTree(t)
+	if c08selfSeen[enc] {
+		return
+	}
+	c08selfSeen[enc] = true
+	text := gedcom.GEDCOMString(root, 0)
+	in := map[string]string{"stream": stream, "tree": text}
+	var walk func(n gedcom.Node, d int)
+	walk = func(n gedcom.Node, d int) {
+		if !c08equals(n, n) {
+			c.Oracle("", "a node does not Equal itself", in, "Equals(self) = false for: "+gedcom.GEDCOMLine(n, d), "true")
+		}
+		for _, k := range n.Nodes() {
+			walk(k, d+1)
+		}
+	}
+	walk(root, 0)
+	plain := c08syntaxPlain(t)
+	if plain {
+		c.Count("self-copy: syntax excludes the known finding")
+	} else {
+		c.Count("self-copy: constrained dates or overlapping RESI/EVEN date sets present")
+	}
+	for _, variant := range []string{"an identical copy", "a reordered copy"} {
+		ct := t.Clone()
+		if variant == "a reordered copy" {
+			ct = c08permute(r, t)
+		}
+		a, e1 := newPlain(t) // fresh objects on both sides: the generated tree itself is left alone
+		b, e2 := newPlain(ct)
+		if e1 != nil || e2 != nil {
+			c.Count("self-copy skipped: tree needs a document")
+			return
+		}
+		all, out := func() (ok bool, s string) {
+			defer func() {
+				if rec := recover(); rec != nil {
+					ok, s = false, fmt.Sprintf("panic: %v", rec)
+				}
+			}()
+			d := gedcom.CompareNodes(a, b)
+			return d.IsDeepEqual(), d.String()
+		}()
+		if !all {
+			key := ""
+			if !plain {
+				key = "nontransitive-siblings"
+			}
+			c.Oracle(key, "a tree and "+variant+" of it do not give an all-two-sided diff", in, out, "IsDeepEqual() = true")
+		}
+	}
+}
+
+// c08oddDates: RESI / EVEN nodes whose DATE children are unparsable, phrases, empty or mixed with
+// parsable ones; the date sets of different nodes are taken from groups without common members
+// (occasionally from overlapping ones)
+func (g *c08gen) oddDates() *TNode {
+	groups := [][]string{{"unknown"}, {"(the winter after the flood)"}, {""}, {"31 FEB 1900", "sometime"},
+		{"1900"}, {"(about the war)", "3 Sep 1943"}, {"Sep 1943", "sometime in spring"}}
+	if g.r.Chance(1, 6) {
+		groups = append(groups, []string{"unknown", "1850"}, []string{"1900", "(unknown)"})
+	}
+	t := T("ZROOT", "", "")
+	for n := g.r.Range(1, 5); n > 0; n-- {
+		e := T(g.r.Pick([]string{"RESI", "EVEN", "RESI", "EVEN", "BIRT"}), "", "")
+		if e.Tag == "EVEN" && g.r.Chance(1, 3) {
+			e.Value = "Graduation"
+		}
+		grp := groups[g.r.Intn(len(groups))]
+		for _, v := range grp {
+			if len(grp) == 1 || g.r.Chance(4, 5) {
+				e.Kids = append(e.Kids, T("DATE", v, ""))
+			}
+		}
+		if g.r.Chance(1, 2) {
+			e.Kids = append(e.Kids, T("PLAC", g.r.Pick(c08values["PLAC"]), ""))
+		}
+		if g.r.Chance(1, 4) {
+			e.Kids = append(e.Kids, T("NOTE", g.r.Pick(c08values[""]), ""))
+		}
+		pos := g.r.Intn(len(t.Kids) + 1)
+		t.Kids = append(t.Kids[:pos:pos], append([]*TNode{e}, t.Kids[pos:]...)...)
+	}
+	if g.r.Chance(1, 3) { // one level further down
+		t = T("ZROOT", "", "", T("NAME", "John /Smith/", ""), T("NOTE", "x y", "", t.Kids...))
+	}
+	return t
+}
+
 // ---------- running the implementation ----------
 
 type c08side struct {
@@ -869,6 +1045,8 @@ func c08run(c *Ctx, stream string, ln, rn gedcom.Node, ops string) (intact bool)
 	}
 	req := "diff " + opsTok + " " + encTree(lt) + " " + encTree(rt)
 	in := c08input{stream, ops, gedcom.GEDCOMString(ln, 0), gedcom.GEDCOMString(rn, 0), req}
+	c08reflexive(c, stream, ln, c.R)
+	c08reflexive(c, stream, rn, c.R)
 	l, r := c08number(ln), c08number(rn)
 	transitive := c08transitive(l, r)
 	deepEq := func() (b bool) {
@@ -1131,6 +1309,19 @@ func init() {
 			for _, ops := range c08allOps(4) {
 				c08case(c, "all orders", a.Clone(), b.Clone(), ops, 0)
 			}
+		}
+
+		// 1a. RESI / EVEN with unparsable, phrase, empty and mixed dates
+		for i := c.N(1500, 20000); i > 0; i-- {
+			a := g.oddDates()
+			b := c08permute(g.r, a)
+			switch g.r.Intn(4) {
+			case 0:
+				g.edit(b)
+			case 1:
+				b = g.oddDates()
+			}
+			c08case(c, "RESI/EVEN with unparsable dates", a, b, g.randOps(), 0)
 		}
 
 		// 1b. very wide sibling lists (60..140)
